@@ -25,14 +25,16 @@ def iterindices(case, d):
     npt = case.get('nptype')     # start / end indices given as NumPy scalars of this type (e.g. taken from an index array)
 
     def conv(v):
-        if npt is None or v is None or v < 0:
+        if npt is None or v is None or v < 0 or v > np.iinfo(npt).max:
             return v
         return np.dtype(npt).type(v)
     for (c, s, st, en, flag) in case['args']:
         def f():
             import itertools
             fr = [[int(x), int(y)] for x, y in
-                  itertools.islice(a.iterindices(c, stepsize=s, startindex=conv(st), endindex=conv(en),
+                  itertools.islice(a.iterindices(conv(c) if case.get('npall') else c,
+                                                 stepsize=conv(s) if case.get('npall') else s,
+                                                 startindex=conv(st), endindex=conv(en),
                                                  include_remainder=flag), CAP + 1)]
             if len(fr) > CAP:
                 raise RuntimeError('more than %d frames: the iterator does not end' % CAP)
